@@ -93,13 +93,14 @@ Qed.
 
 Theorem calls_commute (c1 c2 : call) (t : node) :
   disjoint (fst c1) (fst c2) = true ->
-  let (t1, o1) := exec c1 t in
-  let (t12, o2) := exec c2 t1 in
-  let (t2, o2') := exec c2 t in
-  let (t21, o1') := exec c1 t2 in
-  t12 = t21 /\ o1 = o1' /\ o2 = o2'.
+  (* the same tree either way round *)
+  fst (exec c2 (fst (exec c1 t))) = fst (exec c1 (fst (exec c2 t))) /\
+  (* c1 answers the same before and after c2 *)
+  snd (exec c1 t) = snd (exec c1 (fst (exec c2 t))) /\
+  (* c2 answers the same after and before c1 *)
+  snd (exec c2 (fst (exec c1 t))) = snd (exec c2 t).
 Proof.
-  intro D. unfold exec. cbn zeta.
+  intro D. unfold exec. cbn [fst snd].
   split; [|split].
   - symmetry. apply upd_comm; auto.
   - rewrite sub_upd_disjoint; auto. rewrite disjoint_sym; auto.
@@ -107,6 +108,8 @@ Proof.
 Qed.
 
 (** * Interleavings *)
+Local Arguments exec : simpl never.
+Local Arguments runs : simpl never.
 
 Definition req (a b : node * list (nat * option outc)) : Prop :=
   fst a = fst b /\ forall i, proj i (snd a) = proj i (snd b).
@@ -122,7 +125,9 @@ Lemma runs_cons i c r t :
   runs ((i, c) :: r) t =
   (fst (runs r (fst (exec c t))), (i, snd (exec c t)) :: snd (runs r (fst (exec c t)))).
 Proof.
-  simpl. destruct (exec c t) as [t1 o]. simpl. destruct (runs r t1). reflexivity.
+  change (runs ((i, c) :: r) t)
+    with (let (t1, o) := exec c t in let (t2, os) := runs r t1 in (t2, (i, o) :: os)).
+  destruct (exec c t) as [t1 o]. cbn [fst snd]. destruct (runs r t1). reflexivity.
 Qed.
 
 Lemma proj_cons {A} i j (a : A) l :
@@ -145,13 +150,10 @@ Lemma req_swap i c j d r t :
   i <> j -> disjoint (fst c) (fst d) = true ->
   req (runs ((i, c) :: (j, d) :: r) t) (runs ((j, d) :: (i, c) :: r) t).
 Proof.
-  intros N D. rewrite !runs_cons.
-  pose proof (calls_commute c d t D) as H.
-  destruct (exec c t) as [t1 o1] eqn:E1. destruct (exec d t) as [t2 o2'] eqn:E2.
-  simpl in *.
-  destruct (exec d t1) as [t12 o2] eqn:E3. destruct (exec c t2) as [t21 o1'] eqn:E4.
-  destruct H as (A & B & C). subst. simpl. split; auto.
-  intro k. rewrite !proj_cons.
+  intros NE D. rewrite !runs_cons.
+  destruct (calls_commute c d t D) as (A & B & C).
+  cbn [fst snd]. rewrite A, B, C. split; [reflexivity|].
+  intro k. cbn [snd]. rewrite !proj_cons.
   destruct (Nat.eqb i k) eqn:Ei; destruct (Nat.eqb j k) eqn:Ej; auto.
   apply Nat.eqb_eq in Ei. apply Nat.eqb_eq in Ej. congruence.
 Qed.
@@ -270,7 +272,8 @@ Qed.
 Lemma runs_tags s : forall t i, proj i s = [] -> proj i (snd (runs s t)) = [].
 Proof.
   induction s as [|[j d] r IH]; intros t i P; auto.
-  rewrite runs_cons. simpl. rewrite proj_cons in *. destruct (Nat.eqb j i); try discriminate. auto.
+  rewrite runs_cons. cbn [snd]. rewrite proj_cons in P. rewrite proj_cons.
+  destruct (Nat.eqb j i); [discriminate P | apply IH; exact P].
 Qed.
 
 Definition only (i : nat) (s : list tcall) : list tcall := filter (fun x => Nat.eqb (fst x) i) s.
@@ -292,6 +295,12 @@ Proof.
     rewrite Z in *. simpl in *. rewrite IH. reflexivity.
 Qed.
 
+Lemma proj_others_nil i (s : list tcall) : proj i (others i s) = [].
+Proof.
+  unfold proj, others. induction s as [|[j a] s IH]; simpl; auto.
+  destruct (Nat.eqb j i) eqn:E; simpl; auto. rewrite E. exact IH.
+Qed.
+
 (** Program [i], whose calls are all anchored at [p], gets in ANY interleaving with
     programs on roots disjoint from [p] exactly the outcomes, and leaves under [p]
     exactly the subtree, that it produces when it runs alone. *)
@@ -304,35 +313,216 @@ Proof.
   intros RD DP.
   assert (E : req (runs s t) (runs (only i s ++ others i s) t)).
   { apply interleavings_agree; auto. intro k. symmetry. apply proj_only_others. }
-  destruct E as [ES ER]. rewrite runs_app in ES, ER. simpl in ES, ER.
+  destruct E as [ES ER]. rewrite runs_app in ES, ER. cbn [fst snd] in ES, ER.
   split.
   - rewrite ER, proj_app. rewrite (runs_tags (others i s)).
     + apply app_nil_r.
-    + unfold proj, others. induction s as [|[j a] s IH]; simpl; auto.
-      destruct (Nat.eqb j i) eqn:E; simpl; rewrite ?E; auto.
-      apply IH.
-      * intros a1 x b y I1 I2. apply RD; right; auto.
-      * intros. eapply DP; eauto. right; auto.
-      * intro k. reflexivity.
-      * reflexivity.
+    + apply proj_others_nil.
   - rewrite ES. apply runs_frame. intros j d IN. unfold others in IN.
-    apply filter_In in IN. destruct IN as [IN K]. simpl in K.
+    apply filter_In in IN. destruct IN as [IN K]. cbn [fst] in K.
     apply (DP j d IN). intro X. subst. rewrite Nat.eqb_refl in K. discriminate.
 Qed.
 
-(** * The comparison verdict of the oracle *)
-Lemma items_eqb_eq a : forall b, items_eqb a b = true <-> a = b.
+(** * The workload of the correspondence check *)
+
+Lemma only_proj i (s : list tcall) : only i s = map (fun x => (i, x)) (proj i s).
 Proof.
-  induction a as [|[c s] a IH]; destruct b as [|[c' s'] b]; simpl; split; intro H;
-    try discriminate; auto.
-  - apply andb_true_iff in H. destruct H as [H1 H2]. apply andb_true_iff in H1. destruct H1 as [H0 H1].
-    apply N.eqb_eq in H0. apply String.eqb_eq in H1. apply IH in H2. congruence.
-  - inversion H; subst. rewrite N.eqb_refl, String.eqb_refl. simpl. apply IH. reflexivity.
+  unfold only, proj. induction s as [|[j c] s IH]; simpl; auto.
+  destruct (Nat.eqb j i) eqn:E; simpl; auto.
+  apply Nat.eqb_eq in E. subst. f_equal. exact IH.
 Qed.
 
-Theorem conc_agrees_spec o :
-  conc_agrees o = true <->
-  co_conc_resp o = co_alone_resp o /\ co_conc_tree o = co_alone_tree o /\ co_stray o = false.
+Lemma calls_of_number (l : list (list call)) : forall n i,
+  calls_of i (number n l) =
+  if Nat.leb n i then match nth_error l (i - n) with Some x => x | None => [] end else [].
 Proof.
-  unfold conc_agrees. rewrite !andb_true_iff, !items_eqb_eq, negb_true_iff. tauto.
+  unfold calls_of. induction l as [|a l IH]; intros n i.
+  - cbn [number flat_map]. destruct (Nat.leb n i); auto. destruct (i - n); auto.
+  - cbn [number flat_map fst snd]. rewrite IH. destruct (Nat.eqb n i) eqn:E.
+    + apply Nat.eqb_eq in E. subst.
+      assert (L1 : Nat.leb (S i) i = false) by (apply Nat.leb_gt; lia).
+      rewrite L1, Nat.leb_refl, Nat.sub_diag. cbn [nth_error]. apply app_nil_r.
+    + apply Nat.eqb_neq in E. cbn [app].
+      destruct (Nat.leb n i) eqn:L.
+      * apply Nat.leb_le in L.
+        assert (L1 : Nat.leb (S n) i = true) by (apply Nat.leb_le; lia).
+        rewrite L1. replace (i - n) with (S (i - S n)) by lia. reflexivity.
+      * apply Nat.leb_gt in L.
+        assert (L1 : Nat.leb (S n) i = false) by (apply Nat.leb_gt; lia).
+        rewrite L1. reflexivity.
+Qed.
+
+Lemma calls_of_progs cs i :
+  calls_of i (progs_of cs) = match nth_error cs i with Some c => prog_of c | None => [] end.
+Proof.
+  unfold progs_of. rewrite calls_of_number. simpl. rewrite Nat.sub_0_r.
+  rewrite nth_error_map. destruct (nth_error cs i); reflexivity.
+Qed.
+
+(** in an interleaving of the workload, every call tagged i is anchored at client i's collection *)
+Lemma interleaving_roots cs s i c :
+  is_interleaving s (progs_of cs) -> In (i, c) s ->
+  exists cl, nth_error cs i = Some cl /\ fst c = [cl_name cl].
+Proof.
+  intros I IN. apply in_proj in IN. rewrite (I i), calls_of_progs in IN.
+  destruct (nth_error cs i) as [cl|]; [|destruct IN].
+  exists cl. split; auto. unfold prog_of in IN. apply in_map_iff in IN.
+  destruct IN as (op & E & _). subst. reflexivity.
+Qed.
+
+Lemma distinct_nth (l : list name) : forall i j a b,
+  distinct l = true -> nth_error l i = Some a -> nth_error l j = Some b -> i <> j -> a <> b.
+Proof.
+  induction l as [|x l IH]; intros i j a b D A B N.
+  - destruct i; discriminate.
+  - simpl in D. apply andb_true_iff in D. destruct D as [NI D].
+    apply negb_true_iff in NI.
+    assert (NIN : forall k y, nth_error l k = Some y -> x <> y).
+    { intros k y K E. subst y. apply nth_error_In in K.
+      assert (existsb (String.eqb x) l = true).
+      { apply existsb_exists. exists x. split; auto. apply String.eqb_refl. }
+      congruence. }
+    destruct i, j; simpl in *; try congruence.
+    + inversion A; subst. eapply NIN; eauto.
+    + inversion B; subst. intro E. symmetry in E. revert E. eapply NIN; eauto.
+    + eapply IH; eauto.
+Qed.
+
+Lemma disjoint_singletons a b : a <> b -> disjoint [a] [b] = true.
+Proof.
+  intro N. unfold disjoint. simpl.
+  replace (String.eqb a b) with false by (symmetry; apply String.eqb_neq; auto).
+  replace (String.eqb b a) with false by (symmetry; apply String.eqb_neq; auto).
+  reflexivity.
+Qed.
+
+Lemma workload_roots_disjoint cs s :
+  distinct (map cl_name cs) = true -> is_interleaving s (progs_of cs) -> roots_disjoint s.
+Proof.
+  intros D I i c j d IC JD N.
+  destruct (interleaving_roots _ _ _ _ I IC) as (a & A & RA).
+  destruct (interleaving_roots _ _ _ _ I JD) as (b & B & RB).
+  rewrite RA, RB. apply disjoint_singletons.
+  eapply (distinct_nth (map cl_name cs) i j); eauto;
+    rewrite nth_error_map; [rewrite A | rewrite B]; reflexivity.
+Qed.
+
+(** Whatever interleaving of the clients' requests the scheduler produces, every
+    client gets the answers, and the served tree ends as, the model computes by
+    running the programs one after another. *)
+Theorem expected_any_interleaving cs s :
+  distinct (map cl_name cs) = true -> is_interleaving s (progs_of cs) ->
+  fst (runs s (init_tree cs)) = fst (expected cs) /\
+  forall i, proj i (snd (runs s (init_tree cs))) = proj i (snd (expected cs)).
+Proof.
+  intros D I. apply interleavings_sequential; auto. eapply workload_roots_disjoint; eauto.
+Qed.
+
+Lemma seq_is_interleaving progs : is_interleaving (seq_schedule progs) progs.
+Proof. intro i. apply proj_seq. Qed.
+
+(** ... and exactly what its program produces when it runs alone. *)
+Theorem expected_is_alone cs s i c :
+  distinct (map cl_name cs) = true -> is_interleaving s (progs_of cs) ->
+  nth_error cs i = Some c ->
+  proj i (snd (runs s (init_tree cs))) = proj i (snd (expected_alone cs i c)) /\
+  sub [cl_name c] (fst (runs s (init_tree cs))) = sub [cl_name c] (fst (expected_alone cs i c)).
+Proof.
+  intros D I N. unfold expected_alone.
+  assert (O : only i s = map (fun x => (i, x)) (prog_of c)).
+  { rewrite only_proj, (I i), calls_of_progs, N. reflexivity. }
+  rewrite <- O. apply alone.
+  - eapply workload_roots_disjoint; eauto.
+  - intros j d IN NE. destruct (interleaving_roots _ _ _ _ I IN) as (b & B & RB).
+    rewrite RB. apply disjoint_singletons.
+    eapply (distinct_nth (map cl_name cs) j i); eauto;
+      rewrite nth_error_map; [rewrite B | rewrite N]; reflexivity.
+Qed.
+
+(** * The comparison verdicts of the oracle *)
+
+Lemma node_ind' (P : node -> Prop)
+  (HF : forall s, P (File s))
+  (HD : forall ch, Forall (fun kv => P (snd kv)) ch -> P (Dir ch)) : forall n, P n.
+Proof.
+  fix IH 1. intros [s|ch]; [apply HF|]. apply HD.
+  induction ch as [|kv r IHr]; constructor; auto.
+Qed.
+
+Lemma node_eqb_eq a : forall b, node_eqb a b = true <-> a = b.
+Proof.
+  induction a as [s|ch IH] using node_ind'; intros [t|cb]; simpl; try (split; discriminate).
+  - rewrite String.eqb_eq. split; congruence.
+  - revert cb. induction ch as [|[k1 v1] r1 IHr]; intros [|[k2 v2] r2]; try (split; [discriminate|congruence]).
+    + tauto.
+    + inversion IH as [|? ? H1 H2]; subst. simpl in H1.
+      rewrite !andb_true_iff, String.eqb_eq, H1, (IHr H2 r2). split.
+      * intros [[A B] C]. inversion C. subst. reflexivity.
+      * intro E. inversion E. auto.
+Qed.
+
+Lemma names_eqb_eq a : forall b, names_eqb a b = true <-> a = b.
+Proof.
+  induction a as [|x a IH]; intros [|y b]; simpl; try (split; [discriminate|congruence]); try tauto.
+  rewrite andb_true_iff, String.eqb_eq, IH. split; [intros [A B]; congruence | intro E; inversion E; auto].
+Qed.
+
+Lemma outc_eqb_eq a b : outc_eqb a b = true <-> a = b.
+Proof.
+  destruct a, b; simpl; try (split; [discriminate|congruence]);
+    rewrite ?andb_true_iff, ?N.eqb_eq, ?String.eqb_eq, ?names_eqb_eq, ?Bool.eqb_true_iff;
+    split; try (intros [A B]; congruence); try (intro E; inversion E; auto); congruence.
+Qed.
+
+Lemma opt_eqb_eq {A} (f : A -> A -> bool) :
+  (forall a b, f a b = true <-> a = b) -> forall a b, opt_eqb f a b = true <-> a = b.
+Proof.
+  intros H [x|] [y|]; simpl; try (split; [discriminate|congruence]); try tauto.
+  rewrite H. split; congruence.
+Qed.
+
+Lemma list_eqb_eq {A} (f : A -> A -> bool) :
+  (forall a b, f a b = true <-> a = b) -> forall a b, list_eqb f a b = true <-> a = b.
+Proof.
+  intros H. induction a as [|x a IH]; intros [|y b]; simpl; try (split; [discriminate|congruence]); try tauto.
+  rewrite andb_true_iff, H, IH. split; [intros [A1 B]; congruence | intro E; inversion E; auto].
+Qed.
+
+Lemma outs_eqb_eq a b : outs_eqb a b = true <-> a = b.
+Proof. apply list_eqb_eq. apply opt_eqb_eq. apply outc_eqb_eq. Qed.
+
+Lemma tree_eqb_eq a b : tree_eqb a b = true <-> a = b.
+Proof. apply opt_eqb_eq. intros x y. apply node_eqb_eq. Qed.
+
+Lemma clients_agree_spec cs : forall rest i obs,
+  distinct (map cl_name cs) = true ->
+  (forall k c, nth_error rest k = Some c -> nth_error cs (i + k) = Some c) ->
+  clients_agree cs i rest obs = true ->
+  forallb (fun c => outs_eqb (co_conc c) (co_alone c) && tree_eqb (co_conc_tree c) (co_alone_tree c)) obs = true.
+Proof.
+  induction rest as [|c rest IH]; intros i [|o obs] D NTH A; cbn [clients_agree forallb] in *;
+    try discriminate; auto.
+  repeat (apply andb_true_iff in A; destruct A as [A ?]).
+  rename H into REST, H0 into AT, H1 into AO, H2 into CT.
+  apply outs_eqb_eq in A. apply outs_eqb_eq in AO. apply tree_eqb_eq in CT. apply tree_eqb_eq in AT.
+  assert (N : nth_error cs i = Some c) by (rewrite <- (Nat.add_0_r i); apply NTH; reflexivity).
+  destruct (expected_is_alone cs (seq_schedule (progs_of cs)) i c D (seq_is_interleaving _) N) as [EO ET].
+  fold (expected cs) in EO, ET.
+  apply andb_true_iff. split.
+  - apply andb_true_iff. split.
+    + apply outs_eqb_eq. rewrite A, AO, EO. reflexivity.
+    + apply tree_eqb_eq. rewrite CT, AT, ET. reflexivity.
+  - apply (IH (S i)); auto. intros k c' K. replace (S i + k) with (i + S k) by lia. apply NTH. exact K.
+Qed.
+
+(** Agreement of the implementation with the model, concurrently and alone,
+    entails the property on that observation. *)
+Theorem conc_agree_implies_spec_ok cs o :
+  conc_wf cs = true -> conc_agrees cs o = true -> conc_spec_ok o = true.
+Proof.
+  unfold conc_wf, conc_agrees, conc_spec_ok. intros W A.
+  apply andb_true_iff in W. destruct W as [D _].
+  repeat (apply andb_true_iff in A; destruct A as [A ?]).
+  rewrite A, H0. simpl. eapply clients_agree_spec; eauto.
+  intros k c K. exact K.
 Qed.
